@@ -33,7 +33,7 @@ var Registry = map[string]RuleFunc{}
 var Properties = map[string][]string{
 	"C01": {"C01.a", "C01.b", "C01.c", "C01.d", "C12.d", "C05.b", "C10.scan", "C03.d", "C10.sym", "C03.c", "C09.g", "C10.g", "C09.h", "C10.f", "C07.g", "C13.e"},
 	"C02": {"C02.a", "C02.b", "C01.a", "C10.sym", "C10.scan", "C03.c", "C03.d", "C10.f", "C10.g", "C09.g", "C09.h", "C05.b", "C05.c", "C05.e", "C05.g", "C06.a", "C06.c", "C06.e", "C06.g", "C01.d", "C12.b", "C12.d", "C16.e", "C02.f", "C08.a", "C08.b"},
-	"C03": {"C03.a", "C03.c", "C03.d", "C01.a", "C10.sym", "C10.g", "C09.h", "C10.scan", "C10.f", "C09.g", "C07.g"},
+	"C03": {"C03.a", "C03.c", "C03.d", "C01.a", "C10.sym", "C10.g", "C09.h", "C10.scan", "C10.f", "C09.g", "C07.g", "C10.b"},
 	"C04": {"C04.a", "C04.a3", "C04.b", "C10.sym", "C10.scan", "C03.c", "C01.a", "C09.g", "C09.h", "C10.f", "C03.d", "C10.g", "C02.f", "C09.s", "C05.h", "C17.g", "C16.a"},
 	"C09": {"C09", "C09.g", "C01.a", "C01.b", "C16.c", "C09.h", "C10.sym", "C10.scan", "C03.c", "C10.g", "C10.f", "C03.d", "C09.s", "C06.p", "C08.a", "C08.b"},
 	"C10": {"C07", "C10.scan", "C10.b", "C10.f", "C10.g", "C03.c", "C09.h", "C10.sym", "C01.a", "C03.d", "C09.g", "C07.g", "C01.b", "C09", "C16.a", "C10.h"},
@@ -44,7 +44,7 @@ var Properties = map[string][]string{
 	"C11": {"C11.a", "C11.b", "C11.c", "C11.g", "C11.h", "C01.d", "C12.d", "C11.p", "C10.sym", "C04.a", "C04.a3", "C11.i", "C17.g", "C10.scan", "C03.c"},
 	"C12": {"C12.a", "C12.b", "C12.d", "C16.d", "C12.e", "C13.b", "C12.f", "C02.f", "C07.g", "C12.g", "C16.f"},
 	"C13": {"C13.a", "C13.b", "C13.c", "C10.f", "C01.a", "C13.e"},
-	"C17": {"C12.a", "C17.a", "C17.b", "C17.c", "C06.e", "C17.e", "C11.c", "C11.g", "C17.f", "C11.p", "C06.a", "C01.d", "C05.c", "C17.g"},
+	"C17": {"C12.a", "C17.a", "C17.b", "C17.c", "C06.e", "C17.e", "C11.c", "C11.g", "C17.f", "C11.p", "C06.a", "C01.d", "C05.c", "C17.g", "C02.f"},
 	"C16": {"C16.a", "C16.b", "C16.c", "C16.d", "C12.d", "C16.e", "C13.e", "C12.b", "C12.g", "C16.f"},
 	"C15": {"C15.b", "C15.d", "C12.b", "C15.e", "C16.a", "C16.f"},
 	"C14": {"C14.abc", "C14.d", "C14.e", "C14.p", "C02.f", "C11.h", "C17.b", "C06.p"},
